@@ -30,6 +30,10 @@ func init() {
 		"vfNot":     func(p *path, _ *frame, a []value) value { return p.tc.Not(a[0].(*Term)) },
 		"vfStop":    func(p *path, _ *frame, a []value) value { p.abort(abortDone, ""); return nil },
 		"vfEngine":  func(p *path, _ *frame, a []value) value { return p.tc.tt },
+		"vfPermuteMaps": func(p *path, _ *frame, a []value) value {
+			p.cfg.PermuteMaps = a[0].(*Term).IsTrue()
+			return nil
+		},
 		"vfExecLog": vfExecLog,
 		"vfExecErr": vfExecErr,
 	}
